@@ -155,6 +155,21 @@ def _prov(m, fd, node, depth=0):
         if vals:
             ps_ = {_prov(m, fd, v, depth + 1) for v in vals}
             return "|".join(sorted(ps_))
+        # the mapping is built by a private helper: look at what the helper stores
+        for st in ast.walk(fd):
+            if isinstance(st, (ast.Assign, ast.AnnAssign)) and st.value is not None \
+                    and isinstance(st.value, ast.Call) and any(
+                        isinstance(t, ast.Name) and t.id == node.value.id
+                        for t in (st.targets if isinstance(st, ast.Assign) else [st.target])):
+                callee = next((f for f in m.private_callees(fd, 1)
+                               if ast.unparse(st.value.func).split(".")[-1] == f.name), None)
+                if callee is not None:
+                    rets = [r.value for r in ast.walk(callee) if isinstance(r, ast.Return)
+                            and isinstance(r.value, ast.Name)]
+                    if rets:
+                        sub = ast.Subscript(value=ast.Name(id=rets[0].id, ctx=ast.Load()),
+                                            slice=node.slice, ctx=ast.Load())
+                        return _prov(m, callee, sub, depth + 1)
     if isinstance(node, ast.Constant) and isinstance(node.value, str):
         return "LITERAL:" + node.value
     if isinstance(node, ast.JoinedStr):
